@@ -5,7 +5,8 @@ package main
 // TCP on loopback, mutual TLS with a throw-away CA, only Heartbeat implemented) — and Connect()
 // builds its routing table.  For every island 1..N a swamp name hashing to that island is looked up
 // with GetServiceClientAndHost.  Reply: `1:j,2:j,…` with j = index of the entry whose host answered,
-// `-` when the client has no route (GetServiceClient would return nil), or `err`.
+// `-` when the client has no route, or `err`.  When some island of 1..N has no route the reply ends with
+// ` call=err|panic|ok`: what an SDK call (IsSwampExist) for a name of the first such island does.
 
 import (
 	"context"
@@ -25,6 +26,7 @@ import (
 	"strings"
 	"time"
 
+	"github.com/hydraide/hydraide/sdk/go/hydraidego/v3"
 	sdkclient "github.com/hydraide/hydraide/sdk/go/hydraidego/v3/client"
 	"github.com/hydraide/hydraide/sdk/go/hydraidego/v3/hydraidepbgo"
 	sdkname "github.com/hydraide/hydraide/sdk/go/hydraidego/v3/name"
@@ -172,11 +174,26 @@ func c20Routes(farm *c20Farm, nStr, ranges string) (out string) {
 	var parts []string
 	for i := uint64(1); i <= N; i++ {
 		sc := cl.GetServiceClientAndHost(c20NameFor(N, i))
-		if sc == nil {
+		if sc == nil || sc.Host == "" {
 			parts = append(parts, fmt.Sprintf("%d:-", i))
 		} else {
 			parts = append(parts, fmt.Sprintf("%d:%d", i, hostIdx[sc.Host]))
 		}
 	}
-	return strings.Join(parts, ",")
+	// what does a CALL on an island without a route do: an error, or a nil-pointer panic in the SDK?
+	call := ""
+	for i := uint64(1); i <= N; i++ {
+		if sc := cl.GetServiceClientAndHost(c20NameFor(N, i)); sc == nil || sc.Host == "" {
+			call = " call=" + c20Try(func() string {
+				ctx, cancel := context.WithTimeout(context.Background(), 3*time.Second)
+				defer cancel()
+				if _, err := hydraidego.New(cl).IsSwampExist(ctx, c20NameFor(N, i)); err != nil {
+					return "err"
+				}
+				return "ok"
+			})
+			break
+		}
+	}
+	return strings.Join(parts, ",") + call
 }
